@@ -1,6 +1,7 @@
 import Oracle.Proto
 import Oracle.ActorSys
 import Oracle.Persistence
+import Oracle.LifecycleJudge
 /-! Oracle suites of property C03 (the Layer-2 actor-system model is shared by C03–C06). -/
 namespace Oracle.C03
 
@@ -8,7 +9,8 @@ def suites : List (String × Suite) := [
   ("actorsys", Oracle.ActorSys.model),
   ("actorsys-judge", Oracle.ActorSys.judgeC03),
   ("persist", Oracle.Persistence.model),
-  ("persist-spec", Oracle.Persistence.spec)
+  ("persist-spec", Oracle.Persistence.spec),
+  ("lifecycle-judge", Oracle.LifecycleJudge.judge)
 ]
 
 end Oracle.C03
